@@ -460,17 +460,27 @@ func (d *lsnDrv) runLsnHistory(steps []lstepS) {
 		if inter {
 			nInter++
 		}
-		if s.mode != 0 && s.k >= 0 && s.k < i {
-			if steps[s.k].ident() != s.ident() || steps[s.k].lsn != s.lsn {
-				nCross++
-				if inter {
-					nCrossInter++
+		// whose exchange does the origin name?  (receive stamps of all earlier replies, per client)
+		ownRec, otherRec := false, false
+		for j := 0; j < i; j++ {
+			if reps[j].got && reps[j].rx == org {
+				if steps[j].ident() == s.ident() && steps[j].lsn == s.lsn {
+					ownRec = true
+					if steps[j].sock() != s.sock() {
+						nOtherSock++
+					}
+				} else {
+					otherRec = true
 				}
-			} else {
-				nOwn++
-				if steps[s.k].sock() != s.sock() {
-					nOtherSock++
-				}
+			}
+		}
+		if ownRec {
+			nOwn++
+		}
+		if otherRec && !ownRec {
+			nCross++
+			if inter {
+				nCrossInter++
 			}
 		}
 		if s.mode == 3 {
